@@ -187,6 +187,9 @@ impl Target {
             if let Some(c) = t.child.as_mut() {
                 if let Ok(Some(st)) = c.try_wait() {
                     let err = std::fs::read_to_string(format!("{dir}/stderr")).unwrap_or_default();
+                    if let Ok(keep) = std::env::var("VH_KEEP_FAILED_SPEC") {
+                        let _ = std::fs::copy(format!("{dir}/spec.json"), keep);
+                    }
                     return Err(format!("target exited early: {st:?}: {err}"));
                 }
             }
